@@ -34,6 +34,11 @@ class Opts:
         self.greedy_structs = False    # structs never end with an undelimited array
         self.struct_payload = True     # structs may carry a size-delimited payload
         self.overlap_siblings = False  # siblings constraining different fields / a sole alias with children
+        self.enum_first_value = False  # every enum starts with a value tag (C++ F1, Python empty IntEnum)
+        self.one_closed_enum_per_decl = False
+        self.no_body = False
+        self.max_literal = None
+        self.java_safe = False         # stay clear of the Java back end's known defects (see known_findings.json)
         self.__dict__.update(kw)
 
     @staticmethod
@@ -70,7 +75,31 @@ class Gen:
         shape = {"width": width} if width else {}
         if closed is not None:
             shape["open"] = not closed
-        spec = GE.gen_enum(self.rng, name, shape)
+        if self.o.java_safe:
+            shape["width"] = width if width in (8, 16) else self.rng.choice([8, 16]) if width is None else width
+        for _ in range(40):
+            spec = GE.gen_enum(self.rng, name, shape)
+            if self.o.enum_first_value:
+                vt = [t for t in spec.tags if t["kind"] == "value"]
+                if not vt:
+                    continue
+                spec.tags.remove(vt[0])
+                spec.tags.insert(0, vt[0])
+            if self.o.max_literal is not None:
+                mx = self.o.max_literal if not self.o.java_safe else (1 << (spec.width - 1)) - 1
+                def ok(t):
+                    if t["kind"] == "value":
+                        return t["value"] <= mx
+                    if t["kind"] == "range":
+                        return t["hi"] <= mx and all(n["value"] <= mx for n in t["tags"])
+                    return True
+                if not all(ok(t) for t in spec.tags):
+                    spec.tags = [t for t in spec.tags if ok(t)]
+                    if not any(t["kind"] == "value" for t in spec.tags):
+                        continue
+                    if spec.tags[0]["kind"] != "value":
+                        continue
+            break
         # the default Rust value is the first tag: fine for all generated shapes
         self.enums.append((name, spec.width, spec))
         self.decls.append(spec.pdl())
@@ -108,10 +137,20 @@ class Gen:
         if r < 0.7:
             self.features.add("reserved")
             return "_reserved_: %d" % w
-        if r < 0.85:
+        if r < 0.85 and not (self.o.java_safe and (w == 1 or w > 16)):
             self.features.add("fixed_scalar")
             v = self.rng.choice([0, 1, (1 << w) - 1, self.rng.randrange(1 << w)])
+            if self.o.max_literal is not None:
+                v = min(v, self.o.max_literal)
             return "_fixed_ = %s: %d" % (self.lit(v), w)
+        if self.o.java_safe and w not in (8, 16):
+            n = self.fresh("s")
+            names.append(("scalar", n, w))
+            return "%s: %d" % (n, w)
+        if self.o.one_closed_enum_per_decl and any(k == "enum" for k, _, _ in names):
+            n = self.fresh("s")
+            names.append(("scalar", n, w))
+            return "%s: %d" % (n, w)
         if r < 0.93 and w <= 64:
             en, spec = self.some_enum(w)
             n = self.fresh("e")
@@ -136,7 +175,7 @@ class Gen:
         need = sum(w for _, w in headers)
         if total is None:
             lo = max(8, (need + 7) // 8 * 8)
-            choices = [t for t in BYTE_WIDTHS if t >= lo]
+            choices = [t for t in (BYTE_WIDTHS if not self.o.java_safe else [8, 16, 32]) if t >= lo]
             if not choices:
                 raise ValueError("headers too wide")
             total = self.rng.choice(choices[:4])
@@ -162,6 +201,8 @@ class Gen:
 
     def size_width(self, maxw=None):
         c = [1, 2, 3, 4, 5, 7, 8, 8, 9, 12, 16, 16, 24, 32]
+        if self.o.java_safe:
+            c = [3, 4, 5, 7, 8, 8, 12, 16]
         if self.o.wide_size_fields:
             c += [63, 64]
         return self.rng.choice(c)
@@ -210,7 +251,7 @@ class Gen:
                 self.features.add("custom")
                 info["minlen"] += w // 8
             elif kind == "typedef":
-                if depth <= 0:
+                if depth <= 0 or (o.java_safe and "payload" in items):
                     fields += self.chunk([], names)
                     info["minlen"] += 1
                     continue
@@ -257,7 +298,7 @@ class Gen:
                 self.features.add("payload")
                 info["payload"] = True
                 info["static"] = False
-                use_body = rng.random() < 0.3
+                use_body = rng.random() < 0.3 and not o.no_body
                 pname = "_body_" if use_body else "_payload_"
                 # an unsized payload must be followed by fields of static size only
                 sized = rng.random() < 0.5 or not after_static or tail_static
@@ -276,6 +317,13 @@ class Gen:
                     fields.append(pname)
                     self.features.add("payload_last" if idx == len(items) - 1 else "payload_before_static")
             elif kind == "array":
+                if o.java_safe and "payload" in items:
+                    # C8: arrays of dynamic structs next to a payload do not compile
+                    saved = o.struct_arrays
+                    o.struct_arrays = False
+                    self.gen_array(fields, names, info, depth, undelimited_ok=False)
+                    o.struct_arrays = saved
+                    continue
                 self.gen_array(fields, names, info, depth, undelimited_ok=is_last_var and idx == len(items) - 1 and o.unknown_arrays,
                                )
         return fields, info
@@ -290,13 +338,13 @@ class Gen:
         elem_dynamic = False
         elem_static_bytes = None
         if r < 0.45 or depth <= 0 or not o.struct_arrays:
-            w = 8 if (cell and cell["elem"] == "scalar8") else rng.choice(BYTE_WIDTHS[1:] if cell else BYTE_WIDTHS)
+            w = 8 if (cell and cell["elem"] == "scalar8") else rng.choice((BYTE_WIDTHS[1:] if cell else BYTE_WIDTHS) if not o.java_safe else [16, 32, 64])
             elem = str(w)
             elem_static_bytes = w // 8
             self.features.add("array_scalar%d" % w)
             minlen_e = w // 8
         elif r < 0.6 and o.enum_arrays:
-            w = rng.choice([8, 16, 24, 32, 64])
+            w = rng.choice([8, 16, 24, 32, 64] if not o.java_safe else [8, 16])
             en, _ = self.some_enum(w)
             elem = en
             elem_static_bytes = w // 8
@@ -391,10 +439,10 @@ class Gen:
         """A root with constrainable scalar/enum fields and a payload, with children."""
         rng = self.rng
         root = self.fresh("Rt")
-        en, spec = self.new_enum(rng.choice([3, 4, 8]), closed=rng.random() < 0.7)
+        en, spec = self.new_enum(rng.choice([3, 4, 8]) if not self.o.java_safe else 8, closed=rng.random() < 0.7)
         tags = [t for t in spec.tags if t["kind"] == "value"]
         k1, k2 = self.fresh("k"), self.fresh("k")
-        w1 = rng.choice([3, 4, 8, 13])
+        w1 = rng.choice([3, 4, 8, 13]) if not self.o.java_safe else rng.choice([3, 4, 7])
         pad = (-(w1 + spec.width)) % 8
         hdr = ["%s: %d" % (k1, w1), "%s: %s" % (k2, en)]
         if pad:
@@ -447,7 +495,7 @@ class Gen:
                         taken.add(t)
                         cons.append((k2, "%s = %s" % (k2, t)))
                 if not cons:
-                    if alias_used:
+                    if alias_used or self.o.java_safe:
                         continue
                     alias_used = True
                     self.features.add("inherit_alias")
